@@ -610,6 +610,43 @@ func init() {
 				}
 			}
 		}
+		// selectors with three matchers (where merging leaves two filters, and slices of
+		// matchers have spare capacity) against the <=2-matcher selectors of a reduced alphabet
+		red := []string{`l="0"`, `m="1"`, `l!=""`, `m=~"0|1"`, `z=""`, `l=~"0|1"`}
+		var three, upto2 []string
+		upto2 = append(upto2, "a")
+		for i := range red {
+			upto2 = append(upto2, "a{"+red[i]+"}")
+			for j := i + 1; j < len(red); j++ {
+				upto2 = append(upto2, "a{"+red[i]+","+red[j]+"}")
+				for k := j + 1; k < len(red); k++ {
+					three = append(three, "a{"+red[i]+","+red[j]+","+red[k]+"}")
+				}
+			}
+		}
+		bsel := []string{`b`, `b{l="0"}`, `b{m="1"}`, `b{l!=""}`, `b{z=""}`, `b{k=""}`, `b{k="",z=""}`}
+		for _, x := range three {
+			for _, y := range upto2 {
+				for _, pos := range []string{`%s + %s`, `sum(%s) / sum(%s)`, `%s * on (l) %s`} {
+					if !emit(fmt.Sprintf(pos, x, y), ws[0]) || !emit(fmt.Sprintf(pos, y, x), ws[0]) {
+						return
+					}
+				}
+				for _, z := range bsel {
+					for _, pos := range []string{`sum(%s) / sum(%s * %s)`, `sum(%s) / sum(%s + %s)`, `%s + (%s - %s)`, `sum(%s * %s) / sum(%s)`} {
+						var q string
+						if strings.HasSuffix(pos, "sum(%s)") && strings.HasPrefix(pos, "sum(%s *") {
+							q = fmt.Sprintf(pos, y, z, x)
+						} else {
+							q = fmt.Sprintf(pos, x, y, z)
+						}
+						if !emit(q, ws[0]) {
+							return
+						}
+					}
+				}
+			}
+		}
 		// larger expressions with offsets / @ on the selectors
 		for _, q := range []string{
 			`a{l="0"} offset 30s + a`, `a{l="0"} + a offset 30s`, `a{l="0"} @ 45.000 + a`, `rate(a{l="0"}[1m] offset 30s) / rate(a[1m])`,
